@@ -53,8 +53,8 @@ example : Cls.XPathParserException ∈ thrownByLibrary ∧ rooted .XPathParserEx
 /-- **Reported error (partial).**  For an exception of the four families whose own text is non-empty, each of the
     three chain-bearing methods returns normally with a non-zero status *and a non-empty message*, whatever the
     problem listener wrote.  Partial: (1) the hypothesis `msgEmpty = false` is needed — see
-    `empty_message_counterexample`; (2) classes outside the four families are not covered — see
-    `foreign_exceptions_escape_counterexample`; (3) it speaks about the dispatch model of the catch chains, not about
+    `empty_message_counterexample`; (2) classes outside the four families are covered by
+    `every_exception_caught` / `foreign_exceptions_reported`; (3) it speaks about the dispatch model of the catch chains, not about
     what the C++ does before the `throw`. -/
 theorem reported_error_partial :
     ∀ e : Exc, rooted e.cls = true → e.msgEmpty = false → ∀ ch ∈ transformerChains, ∀ l : Bool,
@@ -74,14 +74,26 @@ theorem empty_message_counterexample :
     ¬ Reported (outcome chain_doTransform ⟨.xerces_SAXException, true, false⟩ false) := by
   decide
 
-/-- **DESIGN §6 item 20.**  `std::bad_alloc`, Xerces `OutOfMemoryException` (thrown by Xalan's own default memory
-    manager), Xerces `DOMException` and `std::out_of_range` (XalanVector::at) match no handler of any of the three
-    chains: they leave the entry point as C++ exceptions — no status, no message.  Replayed on the real library by
-    the injection harness (known finding). -/
-theorem foreign_exceptions_escape_counterexample :
-    ∀ c ∈ [Cls.std_bad_alloc, .xerces_OutOfMemoryException, .xerces_DOMException, .std_out_of_range],
-      ∀ ch ∈ transformerChains, ∀ me f l : Bool, outcome ch.2 ⟨c, me, f⟩ l = .escapes := by
+/-- **Every exception is caught — full strength (DESIGN §6 item 20 repaired).**  Each of compileStylesheet / parseSource /
+    doTransform ends in `catch(...)`, every handler assigns a non-zero status and none re-throws; hence *whatever* is thrown
+    inside the `try` — a class of the table or not, the proof does not look at the class — the method returns normally with a
+    non-zero status.  (General lemma `returnsError_of_catchAll`; `decide` for the side conditions of the regenerated chains.) -/
+theorem every_exception_caught :
+    ∀ ch ∈ transformerChains, ∀ (e : Exc) (l : Bool), ReturnsError (outcome ch.2 e l) := by
+  intro ch hch e l
+  have h1 : ∀ ch ∈ transformerChains, (∃ h ∈ ch.2, h.cls = none) ∧ ∀ h ∈ ch.2, h.status ≠ 0 ∧ h.rethrows = false := by
+    decide
+  exact returnsError_of_catchAll ch.2 (h1 ch hch).1 (h1 ch hch).2 e l
+
+/-- … and for the exceptions that used to escape — `std::bad_alloc`, Xerces `OutOfMemoryException` (thrown by Xalan's own
+    default memory manager), Xerces `DOMException`, `std::out_of_range` (XalanVector::at) — the report is complete: non-zero
+    status *and* a non-empty message, whatever text the exception object carries (the handlers use literals / a formatted code). -/
+theorem foreign_exceptions_reported :
+    ∀ c ∈ [Cls.std_bad_alloc, .xerces_OutOfMemoryException, .xerces_DOMException, .std_out_of_range, .std_exception],
+      ∀ ch ∈ transformerChains, ∀ me f l : Bool, Reported (outcome ch.2 ⟨c, me, f⟩ l) := by
   decide
+
+example : transformerChains.length = 3 := by decide
 
 /-- the set of classes with a `throw` site in the library that are outside the four families is exactly this
     (a new kind of foreign exception thrown by the library breaks this theorem) -/
@@ -89,10 +101,11 @@ theorem thrown_foreign_classes_pinned :
     thrownByLibrary.filter (fun c => !rooted c) = [.std_out_of_range, .xerces_OutOfMemoryException] := by
   decide
 
-/-- no handler of any chain is shadowed by an earlier one (e.g. `SAXException` before `SAXParseException`):
-    each is selected for at least one class of the table -/
+/-- no typed handler of any chain is shadowed by an earlier one (e.g. `SAXException` before `SAXParseException`, `std::exception`
+    before `std::bad_alloc`): each is selected for at least one class of the table (`catch(...)` is exempt: it is there for the
+    types the table does not know) -/
 theorem no_dead_handler :
-    ∀ ch ∈ transformerChains ++ xpathCapiChains, ∀ h ∈ ch.2, ∃ c ∈ Cls.all, dispatch ch.2 c = some h := by
+    ∀ ch ∈ transformerChains ++ xpathCapiChains, ∀ h ∈ ch.2, h.cls ≠ none → ∃ c ∈ Cls.all, dispatch ch.2 c = some h := by
   decide
 
 /-- every exported `int` function of XalanCAPI.cpp calls only methods of XalanTransformer that are protected by a
